@@ -66,6 +66,14 @@ fn programs() -> Vec<Prog> {
             def_line: None,
             replies: vec![],
         },
+        // the same on line 0 (a line number like any other)
+        Prog {
+            name: "R6",
+            lines: vec!["0 DIM Z(20): X=3: S$=\"s\": A(1)=9: GOSUB 5: END", "5 FOR I=1 TO 2: READ D: STOP: PRINT X;D;: NEXT I: RETURN", "7 DATA 11,22"],
+            data_line: Some(7),
+            def_line: None,
+            replies: vec![],
+        },
     ]
 }
 
